@@ -141,7 +141,20 @@ func (b *c13Built) restoreCase(n int) (key string, nontrivial bool, sample any, 
 					Detail: fmt.Sprintf("history %s, first %d of %d bytes: panic: %v", b.h.name, n, len(b.data), r)})
 			}
 		}()
-		err = t.C.Restore(bytes.NewReader(b.data[:n]))
+		if !within(c14Patience, func() {
+			defer func() {
+				if r := recover(); r != nil {
+					t.Poisoned = true
+					vs = append(vs, eng.Violation{Assert: "no-panic", Witness: "Restore panicked on a truncated stream",
+						Detail: fmt.Sprintf("history %s, first %d of %d bytes: panic: %v", b.h.name, n, len(b.data), r)})
+				}
+			}()
+			err = t.C.Restore(bytes.NewReader(b.data[:n]))
+		}) {
+			t.Poisoned = true
+			vs = append(vs, eng.Violation{Assert: "no-hang", Witness: "Restore of a truncated stream never returns",
+				Detail: fmt.Sprintf("history %s, first %d of %d bytes: Restore did not return within %v", b.h.name, n, len(b.data), c14Patience)})
+		}
 	}()
 	sample = map[string]any{"history": b.h.name, "bytes": n, "of": len(b.data), "restore_error": fmt.Sprint(err)}
 	if t.Poisoned {
@@ -322,7 +335,8 @@ func init() {
 		Level: "fault_enumeration",
 		Rule: "crash points = EVERY prefix length 0..|B| of the snapshot byte stream B of each history (empty / one block / two blocks / keyed; without a log tail and with tails of 1-4 logged " +
 			"commits incl. a multi-block transaction, produced by committing from inside the destination writer's first Write), each restored into a fresh collection; and every prefix of log " +
-			"files holding 1..4 commits over two blocks, ranged over. Oracle: Restore returns an error, or the restored rows/values/indexes/keys equal the model at the state stream plus the first j " +
+			"files holding 1..4 commits over two blocks, ranged over; plus (SCHED) snapshots taken beside 2 committing transactions in every interleaving up to 2 preemptions, cut at " +
+			"every s2 frame boundary. Oracle: Restore returns an error, or the restored rows/values/indexes/keys equal the model at the state stream plus the first j " +
 			"logged commits for some j; Log.Range delivers a prefix of the appended commits, each equal to the original; no panic. distinct = distinct (history, outcome class) pairs; " +
 			"thorough adds a multi-frame (~3 MB) snapshot at every s2 frame boundary +-2 and every 997th byte",
 		Assumptions: []string{"a hang is caught only by the coordinator's watchdog (reported as a harness error, not a violation)", "truncation only (no bit flips): what a crash while writing leaves behind"},
@@ -348,6 +362,20 @@ func init() {
 						return b.restoreCase(b.points[i])
 					}})
 			}
+			// snapshots taken WITH concurrent commits: the C08 scenarios, every clean cut
+			var scs []scenario
+			for _, sc := range c08Scenarios() {
+				sc := sc
+				if len(sc.writers) > 2 && tier == "quick" {
+					continue
+				}
+				b := 2
+				if len(sc.writers) > 2 {
+					b = 1
+				}
+				scs = append(scs, scenario{"truncated/" + sc.name, b, sc.truncated})
+			}
+			units = append(units, schedUnits("C13", scs)...)
 			for _, l := range c13Logs() {
 				l := l
 				units = append(units, &eng.FlatSpec{UnitName: l.name, Prop: "C13", Chunk: 128, Outcomes: true,
